@@ -149,12 +149,13 @@ bitvec = "1"
             for f in os.listdir(os.path.join(cd, 'src')):
                 if f not in keep: os.remove(os.path.join(cd, 'src', f))
 
-    def build(self):
-        """returns (ok, {defid: first error message}, other_errors)"""
+    def build(self, only_shard=None):
+        """returns (ok, {defid: first error message}, unattributed {shard: [messages]}, tail)"""
         cmd = ['cargo', 'build', '--offline', '--message-format=json', '--keep-going']
-        if self.docs: cmd += ['--features', ','.join('%s/docs' % self.crate(k) for k in range(NSHARDS))]
+        if only_shard is not None: cmd += ['-p', self.crate(only_shard)]
+        if self.docs: cmd += ['--features', ','.join('%s/docs' % self.crate(k) for k in (range(NSHARDS) if only_shard is None else [only_shard]))]
         r = sh(cmd, self.dir, {'CARGO_TARGET_DIR': self.target})
-        failing, other = {}, []
+        failing, other = {}, {}
         for line in r.stdout.splitlines():
             if not line.startswith('{'): continue
             try: m = json.loads(line)
@@ -162,13 +163,12 @@ bitvec = "1"
             if m.get('reason') != 'compiler-message': continue
             msg = m['message']
             if msg.get('level') != 'error': continue
-            files = [s['file_name'] for s in msg.get('spans', [])]
-            # expansion chains: look into macro expansion sites too
             def walk(sp):
                 out = [sp['file_name']]
                 e = sp.get('expansion')
                 if e and e.get('span'): out += walk(e['span'])
                 return out
+            files = []
             for s in msg.get('spans', []): files += walk(s)
             hit = None
             for f in files:
@@ -177,19 +177,49 @@ bitvec = "1"
             text = (msg.get('code') or {}).get('code', '') if msg.get('code') else ''
             text = ('%s %s' % (text, msg.get('message', ''))).strip()
             if hit: failing.setdefault(hit, text)
-            elif 'aborting due to' not in text and 'could not compile' not in text: other.append(text)
+            elif 'aborting due to' not in text and 'could not compile' not in text:
+                mm = re.search(r'shard_(\d\d)', m.get('package_id', ''))
+                other.setdefault(int(mm.group(1)) if mm else -1, []).append(text)
         return r.returncode == 0, failing, other, r.stdout[-3000:]
+
+    def bisect_shard(self, k, excluded):
+        """errors without a usable span (e.g. E0275 overflow reported at the crate root): find the definitions of
+        shard k responsible by group testing (half of the shard stubbed out at a time)"""
+        cands = [d[0] for d in self.defs if d[1] == k and d[0] not in excluded]
+        culprits = {}
+        def fails(active):
+            ex = dict(excluded)
+            for c in cands:
+                if c not in active: ex[c] = 'bisect'
+            ex.update({c: 'bisect-culprit' for c in culprits})
+            self.write(ex)
+            ok, failing, other, tail = self.build(only_shard=k)
+            return (not ok), (other.get(k) or list(failing.values()) or ['?'])
+        def rec(cs):
+            if len(culprits) >= 12: return
+            bad, msgs = fails(set(cs))
+            if not bad: return
+            if len(cs) == 1:
+                culprits[cs[0]] = msgs[0]
+                return
+            rec(cs[:len(cs) // 2])
+            rec(cs[len(cs) // 2:])
+        rec(cands)
+        return culprits
 
     def build_excluding(self):
         excluded = {}
-        for rnd in range(6):
+        for rnd in range(8):
             self.write(excluded)
             ok, failing, other, tail = self.build()
             if ok: return excluded
             new = {k: v for k, v in failing.items() if k not in excluded}
             if not new:
+                for k in sorted(x for x in other if x >= 0):
+                    new.update(self.bisect_shard(k, excluded))
+            if not new:
                 print(tail)
-                print('MACHINERY-FAILURE: generated corpus does not build and the errors cannot be attributed to definitions: %s' % other[:3])
+                print('MACHINERY-FAILURE: generated corpus does not build and the errors cannot be attributed to definitions: %s' % list(other.items())[:3])
                 sys.exit(2)
             excluded.update(new)
         print('MACHINERY-FAILURE: corpus still does not build after excluding %d definitions' % len(excluded))
